@@ -202,7 +202,9 @@ theorem Inv.callE_sound {μ1 ρ1} {m1 : MapSt} (h1 : Inv c μ1 ρ1 m1) (ok : c.O
   · rename_i hs
     simp only [Bool.and_eq_true, List.isEmpty_iff] at hs
     obtain ⟨e1, e2⟩ := h1.empty_state hs.1
-    exact ⟨ideal_congr _ _ _ (fun n s => (e1 n s).symm) (fun x => (e2 x).symm) e, rfl⟩
+    refine ⟨?_, (foldE_spec c.sem c.σ e).2⟩
+    rw [(foldE_spec c.sem c.σ e).1]
+    exact ideal_congr _ _ _ (fun n s => (e1 n s).symm) (fun x => (e2 x).symm) e
   · rename_i hs
     exact h1.evalE_sound ok (by simpa [MapSt.untouched] using hs) e hok hacc
 
